@@ -101,6 +101,11 @@ CHECKS["C17"] = dict(level="model_checking", engine="loom-debugger",
    text="The real debugger/src/lib.rs is recompiled with its std::sync / std::thread imports bound to loom-backed shims (build.rs, no repository hook) and five controller scripts (run-to-end, breakpoint edits while stopped, re-run after the first event, immediate re-run with the precondition enforced exactly, re-run after the end) are explored for five grammar/input/breakpoint scenarios and channel capacities 1 and 2, at preemption bounds 0..4 (quick) and 0..6 plus unbounded with a time cap (thorough). In every schedule the delivered events must equal the sequential listener trace filtered by the breakpoint set followed by Eof or the plain VM error text, nothing may arrive between a breakpoint and its cont, and every run() must return with all threads able to terminate (loom reports deadlocks).",
    note="Spurious park wake-ups and orderings weaker than loom's C11 model are not explored; the bounded channel is the harness' loom model of sync_channel.",
    design_ref="§3 C17")
+CHECKS["C02"] = dict(level="translation_validation", engine="compiled-corpus-differential",
+   technique="differential execution of parsers generated by the current #[derive(Parser)] (corpus compiled at harness build time) against pest_vm on the same grammar text, exhaustively over rules x bounded inputs, in supervised worker processes",
+   text="A corpus of ~1700 (quick) / ~5000 (thorough) grammars per feature configuration - every operator form x rule modifier x WHITESPACE/COMMENT modifier x caller modifier, size-ordered trees, all ASCII built-ins and sample Unicode names, user rules named like non-keyword built-ins, stack-op grammars, many-rule error shapes, and under grammar-extras tagged / PUSH_LITERAL forms - is compiled with the repository's current derive macro; every rule of every grammar is run on every input up to length 4 (5) by the generated parser and by the VM. Agreement: same flattened (rule, span, tag) list, or same error position and same expected/unexpected name sets, or both panic.",
+   note="The corpus must compile, so its grammar bound is lower than C01's; grammars that pest accepts but that do not terminate are kept out; rebuilding the corpus after a change to pest/meta/generator costs ~15-25 s per configuration.",
+   design_ref="§3 C02")
 PENDING = {}
 
 checks = []
@@ -136,6 +141,7 @@ m = {
    {"name": "pairs-views-mc", "path": "/verif/harness/c04", "serves_properties": ["C04"], "kind_free_text": "forest x span x tag enumerator through PairsBuilder plus parse trees from the sdoc corpus; all iterator interleavings on every view against a plain tree"},
    {"name": "front-explorer", "path": "/verif/harness/front", "serves_properties": ["C07", "C09", "C14"], "kind_free_text": "grammar front-end explorer: printer/respeller + reader round trip (C07), totality sweep in supervised worker processes (C09), three-way differential of the bootstrapped parser (C14); built twice (default, grammar-extras)"},
    {"name": "loom-debugger", "path": "/verif/harness/c17", "serves_properties": ["C17"], "kind_free_text": "loom model checker driving the real debugger source (imports rebound at build time); one child process per (script, scenario, capacity, preemption bound)"},
+   {"name": "compiled-corpus-differential", "path": "/verif/harness/c02", "serves_properties": ["C02"], "kind_free_text": "corpus generator + 8 part crates per feature configuration compiled with the repository's derive macro; generated parser vs pest_vm differential in worker processes"},
    {"name": "text-enumerator", "path": "/verif/harness/c10", "serves_properties": ["C10"], "kind_free_text": "complete enumeration of short strings x offsets x offset pairs on the real Position/Span/LineIndex/Error code against direct references"},
    {"name": "pratt-enumerator", "path": "/verif/harness/c13", "serves_properties": ["C13"], "kind_free_text": "exhaustive operator tables x token sequences on the real PrattParser/ConstPrattParser/PrecClimber against a shunting-yard reference"},
    {"name": "unicode-enumerator", "path": "/verif/harness/c16", "serves_properties": ["C16"], "kind_free_text": "complete enumeration of scalar values x property names x access paths (function, by_name, VM, derived parser)"},
